@@ -26,8 +26,9 @@ func NewQueryAuthorizer(c *Client) *QueryAuthorizer {
 func (a *QueryAuthorizer) AuthorizeQuery(u User, q *influxql.Query, database string) (query.FineAuthorizer, error) {
 	// Special case if no users exist.
 	if n := a.Client.UserCount(); n == 0 {
-		// Ensure there is at least one statement.
-		if len(q.Statements) > 0 {
+		// Only the creation of the first admin user may run unauthenticated:
+		// further statements in the same request would run without any check.
+		if len(q.Statements) == 1 {
 			// First statement in the query must create a user with admin privilege.
 			cu, ok := q.Statements[0].(*influxql.CreateUserStatement)
 			if ok && cu.Admin {
